@@ -121,6 +121,14 @@ def run(ctx):
         sp['opts']['split'] = '3h'
         sp['opts']['split_warmup_shift'] = 1 if k_ % 2 else -1
     specs += roll
+    # prices held as a time series whose stamps are not grid points: the split set-up gets the series, the unsplit problem its
+    # interpolation on the grid - uncoupled portfolios must come out alike
+    ts_ = gen.gen_many(ctx.seed, n // 4, dict(CFG, tzs=[None], freqs=['h'], T=(8, 12), p_unaligned_end=0.0, p_wacc=0.0, p_window=0.2, p_cap_key=0.0,
+                                              kinds={'SimpleContract': 4, 'Transport': 2, 'MultiCommodityContract': 1}), 'c14ts_')
+    for sp in ts_:
+        sp['opts']['split'] = '4h'
+        sp['opts']['price_frame_offgrid'] = True
+    specs += ts_
     specs = ctx.specs(specs)
     res = C.run_impl('portfolio', specs)
     exprs, owners = [], []
